@@ -37,9 +37,10 @@ MODELS = {
     "MC_conf": ("MC_core", cluster([1, 2, 3], [1, 2], [])),
     "MC_read": ("MC_core", cluster([1, 2, 3], [1, 2, 3], [])),
     "MC_snap": ("MC_core", cluster([1, 2, 3], [1, 2, 3], [])),
+    "MC_reqsnap": ("MC_core", cluster([1, 2], [1, 2], [])),
 }
 # models whose quick configuration is small enough for the quick tier; the rest run in the thorough tier only
-QUICK = {"MC_elect", "MC_repl", "MC_ready", "MC_single", "MC_prevote", "MC_transfer", "MC_conf", "MC_read", "MC_snap"}
+QUICK = {"MC_elect", "MC_repl", "MC_ready", "MC_single", "MC_prevote", "MC_transfer", "MC_conf", "MC_read", "MC_snap", "MC_reqsnap"}
 
 CONFIGS = {
     "C01": ["MC_repl", "MC_change", "MC_single"],
@@ -52,7 +53,7 @@ CONFIGS = {
     "C08": ["MC_read"],
     "C09": ["MC_conf"],
     "C13": ["MC_repl", "MC_snap"],
-    "C15": ["MC_snap"],
+    "C15": ["MC_snap", "MC_reqsnap"],
     "C16": ["MC_prevote"],
     "C17": ["MC_transfer"],
     "C20": ["MC_ready", "MC_single", "MC_elect", "MC_change"],
